@@ -530,6 +530,9 @@ class _ThreadingNS:
     def Event(self):
         return K.SimEvent(self._k)
 
+    def Lock(self):
+        return K.SimLock(self._k)
+
     def current_thread(self):
         return self._k.current or self._main
 
